@@ -3,13 +3,16 @@ package main
 import (
 	"fmt"
 	"math/big"
+	"os"
 	"strings"
 
 	"github.com/consensys/gnark/frontend"
+	"github.com/consensys/gnark/test"
 	"github.com/wormhole-foundation/example-near-light-client/fri"
 	gl "github.com/wormhole-foundation/example-near-light-client/goldilocks"
 	"github.com/wormhole-foundation/example-near-light-client/types"
 	"github.com/wormhole-foundation/example-near-light-client/variables"
+	"github.com/wormhole-foundation/example-near-light-client/verifier"
 
 	"verif/engine/ref"
 	"verif/engine/sym"
@@ -176,7 +179,7 @@ func runC13(r *Run) {
 		}})
 	}
 	// ---- a whole query round: the accepted equalities -----------------------------------------------
-	cases = append(cases, fieldCase{name: "verifyQueryRound[test_circuit]", bound: "real shape of test_circuit (258+2 opened polynomials, two arity-16 steps, 16 final coefficients); every leaf value, opening, challenge and the query index symbolic; Merkle checks excluded (C12)", build: func(fc *fctx) ([]frontend.Variable, []*ref.N) {
+	cases = append(cases, fieldCase{name: "verifyQueryRound[test_circuit]", acceptReplay: func() string { return friAcceptReplay(r) }, bound: "real shape of test_circuit (258+2 opened polynomials, two arity-16 steps, 16 final coefficients); every leaf value, opening, challenge and the query index symbolic; Merkle checks excluded (C12)", build: func(fc *fctx) ([]frontend.Variable, []*ref.N) {
 		return queryRoundCase(fc, base, r)
 	}})
 	hooks := map[string]hookFn{"fri.Chip.verifyMerkleProofToCapWithCapIndex": func(recv any, args []any) []any { return nil }}
@@ -369,4 +372,91 @@ func hasIsZero(t *sym.Term, depth int) bool {
 		}
 	}
 	return false
+}
+
+// friPerturbCircuit: the real transcript and FRI verifier on an honest proof, with one element of
+// the FRI proof changed AFTER the challenges were derived (so the change is seen only by the
+// query-round algebra, not by Fiat-Shamir).
+type friPerturbCircuit struct {
+	What         string                            `gnark:"-"` // "", "final", "step"
+	I, J, Limb   int                               `gnark:"-"`
+	VD           variables.VerifierOnlyCircuitData `gnark:"-"`
+	Common       types.CommonCircuitData           `gnark:"-"`
+	Proof        variables.Proof
+	PublicInputs []gl.Variable
+}
+
+func (c *friPerturbCircuit) Define(api frontend.API) error {
+	vc := verifier.NewVerifierChip(api, c.Common)
+	pih := vc.GetPublicInputsHash(c.PublicInputs)
+	ch := vc.GetChallenges(c.Proof, pih, c.VD)
+	fc := *fieldOf[*fri.Chip](vc, "friChip")
+	glc := gl.New(api)
+	fp := c.Proof.OpeningProof
+	switch c.What {
+	case "final":
+		fp.FinalPoly.Coeffs = append([]gl.QuadraticExtensionVariable{}, fp.FinalPoly.Coeffs...)
+		v := fp.FinalPoly.Coeffs[c.I]
+		v[c.Limb] = glc.Add(v[c.Limb], gl.One())
+		fp.FinalPoly.Coeffs[c.I] = v
+	case "step":
+		fp.QueryRoundProofs = append([]variables.FriQueryRound{}, fp.QueryRoundProofs...)
+		qr := fp.QueryRoundProofs[0]
+		qr.Steps = append([]variables.FriQueryStep{}, qr.Steps...)
+		st := qr.Steps[c.I]
+		st.Evals = append([]gl.QuadraticExtensionVariable{}, st.Evals...)
+		v := st.Evals[c.J]
+		v[c.Limb] = glc.Add(v[c.Limb], gl.One())
+		st.Evals[c.J] = v
+		qr.Steps[c.I] = st
+		fp.QueryRoundProofs[0] = qr
+	}
+	caps := []variables.FriMerkleCap{c.VD.ConstantSigmasCap, c.Proof.WiresCap, c.Proof.PlonkZsPartialProductsCap, c.Proof.QuotientPolysCap}
+	fc.VerifyFriProof(fc.GetInstance(ch.PlonkZeta), fc.ToOpenings(c.Proof.Openings), &ch.FriChallenges, caps, &fp)
+	return nil
+}
+
+// friAcceptReplay: honest proof accepted; a changed final-polynomial coordinate rejected (full real
+// code); a changed fold evaluation rejected by the round algebra (Merkle check switched off).
+func friAcceptReplay(r *Run) string {
+	in := loadInstance(r.Repo, "test_circuit").restrict(1)
+	os.Setenv("USE_BIT_DECOMPOSITION_RANGE_CHECK", "true")
+	defer os.Unsetenv("USE_BIT_DECOMPOSITION_RANGE_CHECK")
+	run := func(what string, i, j, limb int, merkleOff bool) (bool, string) {
+		clearHooks()
+		if merkleOff {
+			setHooks(map[string]hookFn{"fri.Chip.verifyMerkleProofToCapWithCapIndex": func(recv any, args []any) []any { return nil }})
+		}
+		defer clearHooks()
+		mk := func() *friPerturbCircuit {
+			return &friPerturbCircuit{What: what, I: i, J: j, Limb: limb, VD: in.VD, Common: in.Common, Proof: cloneValue(in.Proof.Proof), PublicInputs: cloneValue(in.Proof.PublicInputs)}
+		}
+		var err error
+		pm := catchPanic(func() { quiet(func() { err = test.IsSolved(mk(), mk(), R) }) })
+		forgetChips()
+		if pm != "" {
+			return false, "panic: " + short(pm, 120)
+		}
+		if err != nil {
+			return false, short(err.Error(), 120)
+		}
+		return true, ""
+	}
+	if ok, msg := run("", 0, 0, 0, false); !ok {
+		return "the honest FRI proof is rejected by the real VerifyFriProof: " + msg
+	}
+	n := len(in.Proof.Proof.OpeningProof.FinalPoly.Coeffs)
+	for _, p := range [][2]int{{0, 0}, {0, 1}, {n - 1, 1}, {n / 2, 1}} {
+		if ok, _ := run("final", p[0], 0, p[1], false); ok {
+			return fmt.Sprintf("final-polynomial coefficient %d, coordinate %d changed by one after the challenges were drawn: still accepted by the real VerifyFriProof", p[0], p[1])
+		}
+	}
+	for s := range in.Common.FriParams.ReductionArityBits {
+		for _, p := range [][2]int{{0, 0}, {5, 1}, {15, 1}} {
+			if ok, _ := run("step", s, p[0], p[1], true); ok {
+				return fmt.Sprintf("fold evaluation %d of step %d, coordinate %d changed by one: still accepted by the query-round algebra (Merkle check switched off)", p[0], s, p[1])
+			}
+		}
+	}
+	return ""
 }
